@@ -1,6 +1,7 @@
 package main
 
 import (
+	"runtime"
 	"math/rand/v2"
 	"net/http"
 	"net/http/httptest"
@@ -36,11 +37,12 @@ func init() {
 		ID:    "C05",
 		Level: "exploration",
 		Rule: "lock-step reference model of the documented breaker: online-generated scripts of arrive / complete(status) / advance steps with controlled handlers (up to 8 requests in flight across a trip), fallback 0.5-5s, recovery 1-4s, check period 0/100ms/1s, conditions from the C18 grammar, clock advances landing 1ns before / exactly on / 1ns after the end of the fallback period; per arrival the real decision (handler vs fallback) and the state read from String() are compared with the model; " +
-			"free-running supplement under the race detector: at a frozen instant, once any fallback answer has returned every request started later must get the fallback; non-trivial = script with >=1 trip and >=1 arrival answered by the fallback while requests were in flight; distinct by (config, script)",
+			"free-running supplements under the race detector: at a frozen instant, once any fallback answer has returned every request started later must get the fallback; and with a user-supplied Logger that yields inside every log call (the library's own suspension points) while a ticker advances the frozen clock, the sequence of state changes the breaker reports through that Logger must only move standby -> tripped -> recovering -> (standby or tripped); non-trivial = script with >=1 trip and >=1 arrival answered by the fallback while requests were in flight; distinct by (config, script)",
 		Assumptions: common,
 		Parts: []Part{
 			{Name: "model", Shards: 12, Fn: func(c *Ctx) { cbModelPart(c, "C05") }},
 			{Name: "free", Race: true, Shards: 4, Fn: c05Free},
+			{Name: "cycle", Race: true, Shards: 4, Fn: c05Cycle},
 		},
 	})
 	register(&Property{
@@ -120,7 +122,17 @@ func cbModelPart(c *Ctx, prop string) {
 			choose = cbChooser(6, 5, 5, 3, false)
 			steps += 150
 		}
-		// in C12 bursts, admitted requests accumulate in flight: allow many
+		if prop == "C18" && i%6 == 1 {
+			// long-epoch latency shape: more than a minute of slow but healthy traffic (the rolling histogram wraps),
+			// then slow failures trip the breaker, then fast failures after the trip: the latency leaf must be
+			// evaluated over the responses recorded since the trip only
+			cfg.Cond = &condNode{Kind: "and",
+				L: &condNode{Kind: "cmp", Fn: "latency", Q: pick(r, []float64{50, 90}), Op: ">", ILit: pick(r, []int{50, 100})},
+				R: &condNode{Kind: "cmp", Fn: "coderatio", Args: [4]int{500, 600, 0, 600}, Op: ">", FLit: 0.5}}
+			cfg.CheckPeriod = pick(r, []time.Duration{0, 100 * time.Millisecond})
+			choose = c18LongEpochChooser(time.Duration(65+r.IntN(70)) * time.Second)
+			steps = 900
+		}
 		st, script, mm, err := cbRun(r, cfg, steps, choose)
 		c.Eval()
 		if err != nil {
@@ -442,4 +454,169 @@ func c18FreeTrip(c *Ctx) {
 		c.Nontrivial(sfmt("freetrip/%v/%v/%d/%d", fb, cp, cycles, i))
 	})
 	c.Require("freetrip_cycles", 2)
+}
+
+// c18LongEpochChooser: phase A slow healthy traffic for epochA, phase B slow failures until the trip,
+// phase C fast failures through recovery and after.
+func c18LongEpochChooser(epochA time.Duration) cbStepChooser {
+	var t0 time.Time
+	pendingSlow := false
+	tripped := false
+	return func(r *rand.Rand, m *cbModel, inflight []int, now time.Time, step int) (string, int, time.Duration) {
+		if t0.IsZero() {
+			t0 = now
+		}
+		if m.state != "standby" {
+			tripped = true
+		}
+		phaseA := now.Sub(t0) < epochA && !tripped
+		if !tripped {
+			// slow request: arrive, advance 150-300ms, complete (200 in phase A, 500 in phase B)
+			if len(inflight) == 0 {
+				pendingSlow = true
+				return "arrive", 0, 0
+			}
+			if pendingSlow {
+				pendingSlow = false
+				return "advance", 0, time.Duration(150+r.IntN(150)) * time.Millisecond
+			}
+			if r.IntN(3) == 0 && phaseA {
+				return "advance", 0, time.Duration(r.Int64N(int64(3 * time.Second)))
+			}
+			if phaseA {
+				return "complete", 0, 1 // 200
+			}
+			return "complete", 0, 5 // 500
+		}
+		// phase C: fast failing traffic; let the fallback and recovery periods pass
+		switch {
+		case len(inflight) > 0 && r.IntN(2) == 0:
+			if r.IntN(2) == 0 {
+				return "advance", 0, time.Duration(1+r.IntN(4)) * time.Millisecond
+			}
+			return "complete", r.IntN(8), 5
+		case m.state == "tripped" && r.IntN(3) == 0:
+			d := m.until.Sub(now)
+			if d < 0 {
+				d = 0
+			}
+			return "advance", 0, d + time.Duration(r.IntN(2))
+		case m.state == "recovering" && r.IntN(3) == 0:
+			return "advance", 0, time.Duration(r.Int64N(int64(m.cfg.Recovery)/3 + 1))
+		case len(inflight) < 3:
+			return "arrive", 0, 0
+		}
+		return "complete", r.IntN(8), 5
+	}
+}
+
+// yieldLogger is a user-supplied utils.Logger: it records the state changes the breaker announces
+// ("... setting state to X") in the order they are made, and yields / briefly sleeps inside every log call,
+// widening whatever window exists around the library's own logging points.
+type yieldLogger struct {
+	mu     sync.Mutex
+	states []string
+	seed   atomic.Uint64
+}
+
+func (l *yieldLogger) stall() {
+	x := l.seed.Add(0x9e3779b97f4a7c15)
+	x ^= x >> 29
+	for i := uint64(0); i < x%4; i++ {
+		runtime.Gosched()
+	}
+	if x%7 == 0 {
+		time.Sleep(time.Duration(50+x%400) * time.Microsecond)
+	}
+}
+func (l *yieldLogger) Debug(msg string, args ...any) {
+	if strings.Contains(msg, "setting state to") && len(args) >= 2 {
+		st := sfmt("%v", args[1])
+		l.mu.Lock()
+		l.states = append(l.states, st)
+		l.mu.Unlock()
+	}
+	l.stall()
+}
+func (l *yieldLogger) Info(string, ...any)  { l.stall() }
+func (l *yieldLogger) Warn(string, ...any)  { l.stall() }
+func (l *yieldLogger) Error(string, ...any) { l.stall() }
+
+func c05Cycle(c *Ctx) {
+	c.Cases("cycle", c.N(16, 400), func(i int, r *rand.Rand) {
+		fb := pick(r, []time.Duration{500 * time.Millisecond, time.Second})
+		rec := pick(r, []time.Duration{500 * time.Millisecond, time.Second})
+		freeze(baseTime.Add(time.Duration(r.Int64N(1e9))))
+		defer unfreeze()
+		lg := &yieldLogger{}
+		lg.seed.Store(r.Uint64())
+		var failing atomic.Bool
+		failing.Store(true)
+		var handled, fell atomic.Int64
+		h := http.HandlerFunc(func(w http.ResponseWriter, req *http.Request) {
+			handled.Add(1)
+			if failing.Load() {
+				w.WriteHeader(502)
+			}
+		})
+		fbh := http.HandlerFunc(func(w http.ResponseWriter, req *http.Request) { fell.Add(1); w.WriteHeader(503) })
+		cb, err := cbreaker.New(h, "NetworkErrorRatio() > 0.5", cbreaker.FallbackDuration(fb), cbreaker.RecoveryDuration(rec), cbreaker.CheckPeriod(0), cbreaker.Fallback(fbh), cbreaker.Logger(lg))
+		if err != nil {
+			panic(err)
+		}
+		var stop atomic.Bool
+		var wg sync.WaitGroup
+		total := 1500 + r.IntN(c.N(1500, 4000))
+		var issued atomic.Int64
+		for g := 0; g < 8; g++ {
+			wg.Add(1)
+			go func() {
+				defer wg.Done()
+				for issued.Add(1) <= int64(total) {
+					cb.ServeHTTP(httptest.NewRecorder(), httptest.NewRequest("GET", "http://x.test/", nil))
+				}
+			}()
+		}
+		// ticker: advances the frozen clock and flips the backend between failing and healthy
+		wg.Add(1)
+		go func() {
+			defer wg.Done()
+			tr := rand.New(rand.NewPCG(uint64(i), 99))
+			for !stop.Load() {
+				advance(time.Duration(tr.Int64N(int64(fb / 2))))
+				if tr.IntN(40) == 0 {
+					failing.Store(!failing.Load())
+				}
+				if tr.IntN(25) == 0 {
+					advance(11 * time.Second)
+				}
+				time.Sleep(time.Duration(20+tr.IntN(60)) * time.Microsecond)
+				if issued.Load() > int64(total) {
+					return
+				}
+			}
+		}()
+		wg.Wait()
+		stop.Store(true)
+		c.Eval()
+		lg.mu.Lock()
+		seq := append([]string(nil), lg.states...)
+		lg.mu.Unlock()
+		c.Count("cycle_requests", int64(total))
+		c.Count("cycle_state_changes_observed", int64(len(seq)))
+		legal := map[string]map[string]bool{"standby": {"tripped": true}, "tripped": {"recovering": true}, "recovering": {"standby": true, "tripped": true}}
+		prev := "standby"
+		for k, st := range seq {
+			if !legal[prev][st] {
+				c.Violation("transition", sfmt("fallback %v recovery %v: the breaker announced the state change %s -> %s (change %d of %d: ...%v); only standby -> tripped -> recovering -> (standby|tripped) is allowed", fb, rec, prev, st, k, len(seq), seq[max(0, k-4):min(len(seq), k+2)]), nil)
+				return
+			}
+			prev = st
+		}
+		if len(seq) >= 4 {
+			c.Nontrivial(sfmt("cycle/%v/%v/%d/%d", fb, rec, len(seq), i))
+			c.Count("cycle_nontrivial", 1)
+		}
+	})
+	c.Require("cycle_nontrivial", 2)
 }
